@@ -91,6 +91,14 @@ CLAIMED["C16"] = ("serde", "TLC model checking (decode machine = recursive desce
 CLAIMED["C29"] = ("serde", "TLC model checking of the limited encoder machine + exhaustive limits replay + trace validation",
     "EncodeLimited(t, L) = Encode(t) if it fits else OutOfMemory; the encoder machine over a limited writer is model-checked against it for all small trees and all L in 0..len+1, all cases are replayed into node_to_bytes_limit / node_to_bytes_backrefs_limit; recorded calls on random trees with every limit are validated by TraceSerClassic.", TB, "5 C29")
 
+PYNOTE = TB + "The wheel is rebuilt from /repo/wheel by every check (cargo decides staleness; the .py files are re-copied). Inputs near the 500 MB LIMIT_HEAP limit are not reached."
+CLAIMED["C26"] = ("py", "TLC trace validation: Python and Rust runs of the same serialized input re-executed by Interp.tla + py=rust relation; codec events against the serde specs",
+    "For generated (program bytes, env bytes, budget, 32-bit flag word) the harness records the Rust replica of the binding's steps and the Python call; TracePyRun.tla re-executes the Interp machine for both (flag truncation and heap limit computed in TLA+) and requires the same cost/result or the same error message; ser_*/deser_*/LazyNode views are recorded for Python and Rust and compared with each other and with SerClassic/SerBackrefs/Ser2026 by TracePy.tla.", PYNOTE, "5 C26")
+CLAIMED["C27"] = ("py", "TLC model checking of LazyConv.tla (explicit Python heap with address reuse) + case replay into the wheel + TLC trace validation",
+    "LazyConv.tla models clvm_tree_to_lazy_node with object addresses, fresh temporaries on .pair access, freeing and address reuse, and the address-keyed memo: TLC finds the wrong-tree counterexample for the pre-fix design and proves result = source when visited objects are kept alive (the repaired code); all enumerated trees are replayed through every wrapper class of the wheel; recorded conversions of random trees through 11 wrappers are validated by TracePy.tla.", PYNOTE, "5 C27")
+CLAIMED["C28"] = ("py", "TLC trace validation of the pure-Python helpers against SerClassic/BigInt/TreeHash/Interp",
+    "Recorded calls of sexp_to_bytes, the stream deserializers, int_to_bytes/int_from_bytes, curry/uncurry/curry_hash and runs of curried programs are validated by TracePy.tla / TracePyRun.tla: bytes = Encode, accept set and tree = the classic decode machine and the Rust decoder, integers = ZToAtom/ZFromAtom, curry_hash = TH(curried program), uncurry(curry) = identity, curried run = module run on prepended arguments (both re-executed by Interp).", PYNOTE, "5 C28")
+
 NOT_YET = "not claimed yet in this round: the specification module / engine for it is still being built (DESIGN.md A.7)"
 NA = {
     "C32": "agreement with independent implementations of BLS12-381/secp/keccak cannot be decided by a TLA+ specification, and no independent library (py_ecc, python-ecdsa, pycryptodome) is installed; see DESIGN.md section 6",
